@@ -501,34 +501,21 @@ pub fn dispatch(f: &[&str]) -> String {
                     let secs_back = back.map(|b| std::time::SystemTime::from(b).duration_since(std::time::UNIX_EPOCH).unwrap().as_secs());
                     format!("{}\t{}\t{}", if back == Some(d) && secs_back == Some(secs) { "eq" } else { "NE" }, if zone_ok { "zone-ok" } else { "ZONE-BAD" }, hex(line.as_bytes()))
                 }
-                "mimeversion" => {
-                    let v = header::MimeVersion::new(f[2].parse().unwrap(), f[3].parse().unwrap());
-                    h.set(v);
-                    if h.get::<header::MimeVersion>() == Some(v) { "eq".into() } else { format!("NE\t{}", hex(h.to_string().as_bytes())) }
-                }
-                "cte" => {
-                    let v: header::ContentTransferEncoding = f[2].parse().unwrap();
-                    h.set(v);
-                    if h.get::<header::ContentTransferEncoding>() == Some(v) { "eq".into() } else { "NE".into() }
-                }
+                "mimeversion" => rt_same(header::MimeVersion::new(f[2].parse().unwrap(), f[3].parse().unwrap())),
+                "cte" => rt_same(f[2].parse::<header::ContentTransferEncoding>().unwrap()),
                 "cdisp" => {
                     let fname = utf8(unhex(f[3])).unwrap();
-                    let v = if f[2] == "attachment" { header::ContentDisposition::attachment(&fname) } else { header::ContentDisposition::inline_with_name(&fname) };
-                    h.set(v.clone());
-                    if h.get::<header::ContentDisposition>() == Some(v) { "eq".into() } else { format!("NE\t{}", hex(h.to_string().as_bytes())) }
+                    rt_same(if f[2] == "attachment" { header::ContentDisposition::attachment(&fname) } else { header::ContentDisposition::inline_with_name(&fname) })
                 }
                 "ctype" => {
                     let s = utf8(unhex(f[2])).unwrap();
                     let Ok(v) = header::ContentType::parse(&s) else { return "unparseable".into() };
-                    h.set(v.clone());
-                    if h.get::<header::ContentType>() == Some(v) { "eq".into() } else { format!("NE\t{}", hex(h.to_string().as_bytes())) }
+                    rt_same(v)
                 }
-                "subject" => {
-                    let s = utf8(unhex(f[2])).unwrap();
-                    let v = header::Subject::from(s);
-                    h.set(v.clone());
-                    if h.get::<header::Subject>() == Some(v) { "eq".into() } else { "NE".into() }
-                }
+                "subject" => rt_same(header::Subject::from(utf8(unhex(f[2])).unwrap())),
+                "comments" => rt_same(header::Comments::from(utf8(unhex(f[2])).unwrap())),
+                "messageid" => rt_same(header::MessageId::from(utf8(unhex(f[2])).unwrap())),
+                "contentid" => rt_same(header::ContentId::from(utf8(unhex(f[2])).unwrap())),
                 _ => "bad-kind".into(),
             }
         }
@@ -575,4 +562,30 @@ pub fn dispatch(f: &[&str]) -> String {
         }
         other => format!("UNKNOWN-FN {}", other),
     }
+}
+
+
+/// a typed header stored in a header map and read back: equal as a value AND rendered / debug-printed identically (equality alone is too
+/// weak for types that compare loosely, e.g. media types), also after remove()
+fn rt_same<T: lettre::message::header::Header + PartialEq + Clone + std::fmt::Debug>(v: T) -> String {
+    use lettre::message::header::Headers;
+    let mut h = Headers::new();
+    h.set(v.clone());
+    let line = h.to_string();
+    let back: Option<T> = h.get();
+    let mut why = vec![];
+    match &back {
+        None => why.push("get gives None".to_string()),
+        Some(b) => {
+            if b != &v { why.push("not equal".to_string()); }
+            if format!("{b:?}") != format!("{v:?}") { why.push(format!("Debug differs: {b:?} vs {v:?}")); }
+            let mut h2 = Headers::new();
+            h2.set(b.clone());
+            if h2.to_string() != line { why.push("re-rendered differently".to_string()); }
+        }
+    }
+    let removed: Option<T> = h.remove();
+    if removed.as_ref().map(|x| format!("{x:?}")) != back.as_ref().map(|x| format!("{x:?}")) { why.push("remove gives another value than get".to_string()); }
+    if !h.to_string().is_empty() { why.push("field still present after remove".to_string()); }
+    if why.is_empty() { "eq".into() } else { format!("NE\t{}\t{}", hex(line.as_bytes()), hex(why.join("; ").as_bytes())) }
 }
